@@ -99,7 +99,7 @@ Definition checks_of (i : istate) : list cname :=
   match i with I_unit _ s => i_checks s | I_qcow s => i_checks s | I_vmdk s => i_checks s end.
 
 Definition context_info (i : istate) : list (rname * N) :=
-  map (fun p => (fst p, blen (r_data (snd p)))) (regions_of i).
+  map (fun p => (fst p, flen (r_data (snd p)))) (regions_of i).
 
 (* feed chunks the way InspectWrapper does (an inspector that raised is never fed again) *)
 Fixpoint eat_list (i : istate) (cs : list bytes) : istate * option exn :=
